@@ -40,9 +40,14 @@ func (m *Model) PullOccupancy(ctx context.Context, opts ...resource.ReadOption) 
 		defer close(send)
 		for change := range recv {
 			value := change.Value.(*traits.Occupancy)
-			send <- PullOccupancyChange{
+			select {
+			case <-ctx.Done():
+				// the subscriber may have stopped receiving: do not wait for it once it has cancelled
+				return
+			case send <- PullOccupancyChange{
 				Value:      value,
 				ChangeTime: change.ChangeTime,
+			}:
 			}
 		}
 	}()
